@@ -7,7 +7,7 @@ rm -rf $V; git -C /repo worktree remove --force $W 2>/dev/null; mkdir -p /tmp/sv
 git -C /repo worktree add -q --detach $W HEAD || exit 9
 cp /repo/spsdk/__version__.py $W/spsdk/__version__.py
 (cd $W && git apply $P) || { echo "PATCH DOES NOT APPLY"; git -C /repo worktree remove --force $W; exit 8; }
-rsync -a --exclude .git --exclude replays --exclude evidence /verif/ $V/
+rsync -a --exclude .git --exclude replays --exclude evidence ${VERIF_SNAP:-/verif}/ $V/
 (cd $V && SPSDK_REPO=$W SPSDK_CACHE_FOLDER=/tmp/sv/tp-$N-cache VERIF_DEBUG=2 timeout 3000 ./check $PROP --tier $TIER > /tmp/sv/tp-$N.check 2>&1); echo "check exit=$?"
 grep -E "VIOLATION|KNOWN|^\[|BROKEN|^FAIL|^DISAGREE" /tmp/sv/tp-$N.check | cut -c1-400 | head -12
 git -C /repo worktree remove --force $W; rm -rf $V /tmp/sv/tp-$N-cache
